@@ -1389,6 +1389,8 @@ void Lexer::lexUntilQuote(SyntaxToken* tk, unsigned char quote, unsigned int acc
 
     if (yychar_ == quote)
         yyinput();
+    else
+        diagReporter_.UnterminatedLiteral(quote == '\'' ? "character constant" : "string literal");
 
     // ... and ends with the closing quote (or where the line/text ends, if
     // the literal is unterminated).
